@@ -192,7 +192,9 @@ class C15(Prop):
             'values and blocks with explicit ids colliding with each other and with generated ones; ids in the output are compared '
             'with a reference allocation written from the property statement; non-trivial = session with at least one collision')
 
-    HEADS = ['Alpha', 'alpha', 'ALPHA!', 'a 2', 'a', 'a-2', 'A 2', '!!!', '???', 'x', 'X', 'Beta gamma', 'beta-gamma', 'İstanbul', 'ΑΣ', 'a_b', '٣', 'a--2']
+    HEADS = ['Alpha', 'alpha', 'ALPHA!', 'a 2', 'a', 'a-2', 'A 2', '!!!', '???', 'x', 'X', 'Beta gamma', 'beta-gamma', 'İstanbul', 'ΑΣ', 'a_b', '٣', 'a--2',
+             # text that looks like attributes of the tag it ends up in (F32)
+             'foo id="x" bar', 'a class="c" style="s:t"', "it's id='q'"]
     IDS = ['alpha', 'Alpha', 'a-2', 'x', 'x-2', 'beta-gamma', 'mine', 'MINE', 'a-3']
 
     def element(self, rng):
@@ -298,7 +300,8 @@ class C15(Prop):
                         collision = True
                     used.insert(0, pid)
                     expected_ids.append(pid)
-            got_ids = re.findall(r' id="([^"]*)"', o[1])
+            # id attributes of tags (id="..." look-alike text between tags is text)
+            got_ids = [m for t in re.findall(r'<[a-zA-Z][^<>]*>', o[1]) for m in re.findall(r' id="([^"]*)"', t)]
             got_dups = [m[len("duplicate 'id' attribute: "):] for m in o[2] if m.startswith("duplicate 'id' attribute: ")]
             for g in got_ids:
                 if g != g.lower():
@@ -329,6 +332,8 @@ class C19(Prop):
         parts = []
         kinds = set()
         defs = ["{m1} = 'value one'", "{m2} = '$1 and $2'"]
+        if rng.random() < 0.3:
+            defs.append("{--header-ids} = 'true'")      # generated header ids: still nothing to report
         parts.extend(defs)
         for _ in range(rng.randint(1, 5)):
             k = rng.randrange(9)
@@ -358,7 +363,7 @@ class C19(Prop):
             elif k == 7:
                 parts.append('- item {m1}\n- item')
             else:
-                parts.append('# ' + plain(rng))
+                parts.append('# ' + plain(rng) + rng.choice(['', '', ' id="a%d"' % rng.randint(1, 99), ' class="k" style="s"']))
         return parts, kinds
 
     def cases(self, ctx):
@@ -466,7 +471,7 @@ class C12(Prop):
             'document without the attribute lines except that the first tag of the target block carries exactly the accumulated '
             'attributes (or the block is skipped); non-trivial = >= 2 attribute kinds')
 
-    TARGETS = [('para text', 'p'), ('# Header', 'h1'), ('```\ncode\n```', 'pre'), ('""\nquote\n""', 'blockquote'), ('- item\n- two', 'ul'),
+    TARGETS = [('para text', 'p'), ('# Header', 'h1'), ('# Header id="q" text', 'h1'), ('## H class="w" style="x"', 'h2'), ('```\ncode\n```', 'pre'), ('""\nquote\n""', 'blockquote'), ('- item\n- two', 'ul'),
                ('  indented', 'pre'), ('. one', 'ol'), ('>quoted par', 'blockquote'), ('<image:http://a.b/i.png|alt>', 'img'),
                ('<div>raw</div>', 'div'), ('<section>\nraw\n</section>', 'section'), ('<div>raw</div>', 'div'),
                # HTML blocks that have no start tag to carry the attributes: they consume them all the same
@@ -1168,7 +1173,7 @@ class C02(Prop):
 
     def execute(self, case, ctx, res):
         impl = ctx.impl
-        st = {'src': case['src'], 'safeMode': case['safeMode'], 'reset': True, 'callback': True}
+        st = {'src': case.get('src', ''), 'safeMode': case['safeMode'], 'reset': True, 'callback': True}
         if case['kind'] == 'macro':
             impl.reset_process()
             a = impl.render(case['src'], **step_kwargs(st))
@@ -1201,6 +1206,28 @@ class C02(Prop):
                     return
             res.nontrivial(case['src'])
             res.count('macro')
+            return
+        if case['kind'] == 'user-regex':
+            # a regular expression taken from the source itself (inclusion / exclusion invocation): time at k and k + step
+            # repetitions of the unit; exponential growth from a few bytes is a stall in the making
+            impl.reset_process()
+            old = impl.budget
+            impl.budget = 30.0
+            try:
+                ts = []
+                for k in (case['k'], case['k'] + case['step']):
+                    src = case['template'] % (case['unit'] * k)
+                    t0 = time.process_time()
+                    a = impl.render(src, safeMode=case['safeMode'], reset=True, callback=True)
+                    ts.append(time.process_time() - t0)
+                    if a[0] == 'fuel':
+                        ts[-1] = 30.0
+            finally:
+                impl.budget = old
+            res.oracle_checks += 1
+            if ts[1] > 0.05 and ts[1] / max(ts[0], 1e-3) > 2.0 ** (case['step'] - 1):
+                res.violation('a pattern taken from the source makes rendering time grow exponentially (%.3f s -> %.3f s for %d more bytes)'
+                              % (ts[0], ts[1], case['step'] * len(case['unit'])), case, ts)
             return
         # pumped input: CPU time of the implementation at full and half size
         for k, v in getattr(self, 'prescreen_stats', {}).items():
